@@ -73,6 +73,7 @@ type Conn struct {
 	// CONNECT) it owes the connection an answer or a close; until then the connection is not
 	// quiet even if a reader is already parked (the session's serve loop starts reading before
 	// the setup worker has written the CONNACK)
+	onWrite   func()
 	head      []byte // first bytes consumed (at most 5)
 	consumed  int64
 	frameLen  int64 // total length of the first frame; 0 = not known yet, -1 = malformed length
@@ -117,8 +118,23 @@ func (c *Conn) Read(p []byte) (int, error) {
 	}
 }
 
+// OnNextWrite arms a one-shot hook that runs at the start of the broker's next write to this
+// connection, outside the connection's lock (so that it may close the client side and wait
+// for the broker to notice): a connection that dies exactly while something is written to it.
+func (c *Conn) OnNextWrite(f func()) {
+	c.mu.Lock()
+	c.onWrite = f
+	c.mu.Unlock()
+}
+
 func (c *Conn) Write(p []byte) (int, error) {
 	c.mu.Lock()
+	if f := c.onWrite; f != nil {
+		c.onWrite = nil
+		c.mu.Unlock()
+		f()
+		c.mu.Lock()
+	}
 	defer c.mu.Unlock()
 	if c.brokerClosed {
 		c.writesAfterClose++
